@@ -1,5 +1,9 @@
 use crate::*;
+#[cfg(not(feature = "verif-hooks"))]
 use std::collections::HashSet;
+#[cfg(feature = "verif-hooks")]
+#[allow(unused_imports)]
+use crate::verif_hooks::{HashSet, SimNew};
 use std::hash::{Hash, Hasher};
 use std::iter::Map;
 use itertools::Itertools;
